@@ -1237,7 +1237,17 @@ pub fn generate9(seed: u64, index: u64) -> Wire9Spec {
             },
             _ => Cand::G2Small { k: hk(&mut pr), j13: pr.below(13) as u32, j1621: 0 },
         };
+        // a near miss is followed by the genuine point with the same x (and its negative): a
+        // verdict must not depend on what was offered just before
+        let follow = match &c {
+            Cand::G2YPlus1 { k } => Some(vec![Cand::G2Sub { k: k.clone() }]),
+            Cand::G1YPlus1 { k } => Some(vec![Cand::G1On { k: k.clone(), negate: false }, Cand::G1On { k: k.clone(), negate: true }]),
+            _ => None,
+        };
         ops.push(c);
+        if let Some(f) = follow {
+            ops.extend(f);
+        }
     }
     Wire9Spec { budget: DEFAULT_BUDGET, ops }
 }
